@@ -74,5 +74,7 @@ mod chunk_timing_stats;
 pub use chunk_timing_stats::*;
 
 mod search;
+#[cfg(nexrad_verif)]
+pub(crate) use search::search as search_for_verif;
 
 const REALTIME_BUCKET: &str = "unidata-nexrad-level2-chunks";
